@@ -212,11 +212,18 @@ class Generator(object):
         else:
             minimum_length = 0
 
-        if maximum > 4294967295:
+        # A signed type is used when the minimum is negative, which
+        # leaves one bit less for the maximum.
+        if minimum < 0:
+            limits = (2147483647, 32767, 127)
+        else:
+            limits = (4294967295, 65535, 255)
+
+        if maximum > limits[0]:
             maximum_length = 64
-        elif maximum > 65535:
+        elif maximum > limits[1]:
             maximum_length = 32
-        elif maximum > 255:
+        elif maximum > limits[2]:
             maximum_length = 16
         elif maximum > 0:
             maximum_length = 8
